@@ -82,8 +82,9 @@ def gmatch(p, s):
 
 
 NAMES = ['report ', 'report', 'end\t', ' lead', 'per%41', 'perA', 'r%20f', 'r f', '100%25', '100%', 'a', 'A', 'b', 'ab', 'abc', 'foo', 'Foo', 'foo.txt', 'foobar', 'a*', 'a?', '[a]', 'a b', '*', '?', 'x.trashinfo', 'é', 'n\nl', '-', '-draft.txt', '--force', '--version', '--help', ']', 'a]',
+         'results', 'results=final.txt', 'k=v', 'a=b=c',              # '=' in a name: other tools write it raw into the Path= value
          'cafe\u0301', 'caf\xe9', '\u212b', '\xc5']              # the same glyph spelt in two ways: two different names
-PATS = ['cafe\u0301', 'caf\xe9', 'caf*', '\u212b', '\xc5', 'report', 'report ', 'report?', '* ', 'end*', 'per%41', 'perA', 'r%20f', 'r f', 'per*', '100%', '100%25', 'a', 'A', 'foo', 'foo*', '*foo', '*', '?', '??', 'a?', 'a*', '[ab]', '[!a]', '[a-c]', '[a-c]*', '*.txt', 'f*o', 'a[*]', 'a[?]', '[[]a]', '[]]',
+PATS = ['results', '*=final.txt', 'k=v', 'k*', 'a=b*', '*=c', 'cafe\u0301', 'caf\xe9', 'caf*', '\u212b', '\xc5', 'report', 'report ', 'report?', '* ', 'end*', 'per%41', 'perA', 'r%20f', 'r f', 'per*', '100%', '100%25', 'a', 'A', 'foo', 'foo*', '*foo', '*', '?', '??', 'a?', 'a*', '[ab]', '[!a]', '[a-c]', '[a-c]*', '*.txt', 'f*o', 'a[*]', 'a[?]', '[[]a]', '[]]',
         'a b', '*\n*', '-', '-*', '--*', '-draft*', '--force', '--version', '--help', '/*', '/*/a', '/home/u/*', '/home/u/d/a', '/vol1/*', '/vol1/d/?', 'x.trashinfo', '*.trashinfo', 'é', '[!a-z]*', 'ab*', '*b*', '/']
 
 
@@ -116,6 +117,9 @@ def gen(rng, n):
                 # a second Path= line (an extra group written by another tool, a hand edit): the FIRST one is the entry's location
                 decoy = rng.choice(['other/' + rng.choice(NAMES), '/home/u/' + rng.choice(NAMES), rng.choice(NAMES)])
                 override = scen.TI % (scen.quote(pathv), '2024-01-01T00:00:00') + rng.choice(['', '[Desktop Entry]\n']) + 'Path=%s\n' % scen.quote(decoy)
+            if override is None and '=' in pathv and rng.random() < 0.6:
+                # the '=' of the name written as it is (GLib does not escape it): the value is everything after the FIRST '='
+                override = scen.TI % (scen.quote(pathv).replace('%3D', '='), '2024-01-01T00:00:00')
             nodes += scen.entry(td, name, pathv, '2024-01-01T00:00:00', pk, data=(rng.choice(['/canary/file', 'nowhere', '../gone']) if pk == 'l' else None),
                                 info_override=override)
             ents.append({'td': td, 'name': name, 'full': full})
